@@ -1,5 +1,6 @@
 // Adapter for specs/BlockTemplate (C23): block templates built by a real in-process regtest node from its real mempool.
 //   blocktemplate measure <ignored> <universe.json>     one line per universe transaction: {"fee","vsize","weight","sigops"}
+// Amounts (coin values, fees, coinbase value) are wide values {q, r} = q * 10^9 + r in both directions.
 //   blocktemplate replay <tests.ndjson> <universe.json>
 // A test is {steps: [{a: action}...]}: ["submit", t] (ProcessTransaction), ["inject", t] (TryAddToMempool: no acceptance rules),
 // ["prio", t, d] (PrioritiseTransaction), ["mine", [t...], dt] (a hand-built valid block connected on the tip), and
@@ -29,6 +30,17 @@ Base g_base;
 
 std::string PerKvB(int64_t sat) { return FormatMoney(sat); }
 
+// Amounts travel as wide values {q, r} = q * 10^9 + r, 0 <= r < 10^9 (TLC's integers are 32 bit); q is the floor quotient, so the
+// representation is canonical for negative values too.
+constexpr int64_t WB = 1000000000;
+UniValue W(int64_t v)
+{
+    int64_t q = v / WB, r = v % WB;
+    if (r < 0) { r += WB; q -= 1; }
+    return Obj({{"q", q}, {"r", r}});
+}
+int64_t FromW(const UniValue& w) { return w["q"].getInt<int64_t>() * WB + w["r"].getInt<int64_t>(); }
+
 std::unique_ptr<ChainSim> MakeBaseSim()
 {
     SimOptions o;
@@ -40,7 +52,7 @@ std::unique_ptr<ChainSim> MakeBaseSim()
     const int h0 = g_uni["h0"].getInt<int>();
     const int64_t basedt = g_uni["basedt"].getInt<int64_t>();
     std::map<int, CAmount> coin_at;
-    for (size_t i = 0; i < g_uni["base"].size(); ++i) coin_at[g_uni["base"][i]["h"].getInt<int>()] = g_uni["base"][i]["v"].getInt<int64_t>();
+    for (size_t i = 0; i < g_uni["base"].size(); ++i) coin_at[g_uni["base"][i]["h"].getInt<int>()] = FromW(g_uni["base"][i]["v"]);
     const int64_t g = Params().GenesisBlock().nTime;
     g_base = Base{}; g_base.h0 = h0; g_base.basedt = basedt;
     g_base.mock0 = g + (int64_t)h0 * basedt + 100000;
@@ -139,8 +151,8 @@ struct World {
                 else if (cls == "nopx") spk = CScript() << OP_NOP4 << OP_TRUE;
                 else if (cls == "cltv") spk = CScript() << 1000 << OP_CHECKLOCKTIMEVERIFY << OP_DROP << OP_TRUE;
                 else throw std::runtime_error("bad script class");
-                m.vout.emplace_back(T["outs"][i]["v"].getInt<int64_t>(), spk);
-                out += T["outs"][i]["v"].getInt<int64_t>();
+                m.vout.emplace_back(FromW(T["outs"][i]["v"]), spk);
+                out += FromW(T["outs"][i]["v"]);
             }
             const size_t pad = T.exists("pad") ? T["pad"].getInt<int>() : 0;
             m.vout.emplace_back(0, CScript() << OP_RETURN << std::vector<unsigned char>(30 + pad, (unsigned char)(0xA0 + t)));
@@ -232,7 +244,7 @@ struct World {
         node::BlockCreateOptions c;
         c.block_max_weight = (uint64_t)o["maxw"].getInt<int64_t>();
         c.block_reserved_weight = (uint64_t)o["resw"].getInt<int64_t>();
-        c.block_min_fee_rate = CFeeRate(FeePerVSize{o["minf"].getInt<int64_t>(), o["mins"].getInt<int32_t>()});
+        c.block_min_fee_rate = CFeeRate(FeePerVSize{FromW(o["minf"]), o["mins"].getInt<int32_t>()});
         c.coinbase_output_max_additional_sigops = (size_t)o["cbsig"].getInt<int64_t>();
         c.print_modified_fee = false;
         c.test_block_validity = false;
@@ -267,14 +279,15 @@ struct World {
             UniValue txs(UniValue::VARR), fa(UniValue::VARR), sa(UniValue::VARR), pk(UniValue::VARR);
             std::string key;
             for (size_t i = 1; i < block.vtx.size(); ++i) { const int t = IdOf(block.vtx[i]->GetHash()); txs.push_back(t); key += std::to_string(t) + ","; }
-            for (CAmount f : fees) fa.push_back((int64_t)f);
+            for (CAmount f : fees) fa.push_back(W(f));
             for (int64_t s : sops) sa.push_back(s);
             // the package feerates are only exposed by the assembler's own result: usable if it built the same block
             bool same = raw->block.vtx.size() == block.vtx.size();
             for (size_t i = 1; same && i < block.vtx.size(); ++i) same = raw->block.vtx[i]->GetHash() == block.vtx[i]->GetHash();
-            if (same) for (const auto& p : raw->m_package_feerates) pk.push_back(Obj({{"f", (int64_t)p.fee}, {"s", (int64_t)p.size}}));
+            if (same) for (const auto& p : raw->m_package_feerates) pk.push_back(Obj({{"f", W(p.fee)}, {"s", (int64_t)p.size}}));
             const CAmount cbv = block.vtx[0]->GetValueOut();
-            UniValue tpl = Obj({{"txs", txs}, {"fees", fa}, {"sigops", sa}, {"pkgs", pk}, {"cbq", (int64_t)(cbv / COIN)}, {"cbr", (int64_t)(cbv % COIN)},
+            // what the coinbase pays and what the template tells mining clients it pays, exactly
+            UniValue tpl = Obj({{"txs", txs}, {"fees", fa}, {"sigops", sa}, {"pkgs", pk}, {"cb", W(cbv)}, {"rw", W(cbt.block_reward_remaining)},
                                 {"height", (int64_t)cbt.lock_time + 1}});
             line.pushKV("tpl", tpl);
             line.pushKV("haspk", same);
@@ -352,7 +365,7 @@ int main(int argc, char** argv)
         World w;
         for (size_t t = 1; t < w.txu.size(); ++t) {
             const int64_t weight = GetTransactionWeight(*w.txu[t]);
-            Emit(Obj({{"fee", (int64_t)w.fee[t]}, {"vsize", (int64_t)GetVirtualTransactionSize(weight, w.sigops[t], ::nBytesPerSigOp)},
+            Emit(Obj({{"fee", W(w.fee[t])}, {"vsize", (int64_t)GetVirtualTransactionSize(weight, w.sigops[t], ::nBytesPerSigOp)},
                       {"weight", weight}, {"sigops", w.sigops[t]}}));
         }
         return 0;
